@@ -1,7 +1,7 @@
 """C03 -- C standard mode writes/reads the same bytes as the specification and Python."""
 from .. import cdrive, common, gen, tlc, usmall
 from ..report import Report
-from . import ccopycases, cwire, designlevel, pywire
+from . import ccopycases, cwire, designlevel, pywire, ufull
 
 
 def sigs(case, evt, clause):
@@ -72,6 +72,21 @@ def main(tier, replay=None):
                     cwire.drive_case(c, lib, worker, want=("enc", "dec", "size"))
                 rep.feature("u_small")
             pywire.validate_and_decide(rep, ucases, sig_fn=sigs, count_events=("CEncode", "CDecode"))
+            # schemas on which "wire size == 8 * sizeof" holds by coincidence (whole-width integers, nibbles, power-of-two
+            # capacities, many extensible markers): where a fast path keyed on such an equality would go wrong
+            builder = cdrive.CBuilder(scratch, cflags=("-O2",))
+            kcases = make_cases(seed + 77000, 120 if tier == "quick" else 1500, 3, "c03-coincidence",
+                                max_bits=400, max_depth=3, **gen.COINCIDENCE)
+            import random as _random
+            for gi, gp in enumerate(ufull.grid_progs(None if tier != "quick" else [4, 6, 7, 12, 24, 28, 56, 60])):
+                grng = _random.Random("c03grid/%d/%d" % (seed, gi))
+                kcases.append(cwire.CCase("c03-grid-%d" % gi, gp, [gen.gen_value(grng, gp["rtype"], "ones"),
+                                                                   gen.gen_value(grng, gp["rtype"], "rand")]))
+            for c, lib in cwire.prepare(kcases, scratch, builder):
+                if lib is not None:
+                    cwire.drive_case(c, lib, worker, want=("enc", "dec", "size"))
+                rep.feature("coincidence-profile")
+            pywire.validate_and_decide(rep, kcases, sig_fn=sigs, count_events=("CEncode", "CDecode"))
             for ci, (cflags, single_tu) in enumerate(configs):
                 builder = cdrive.CBuilder(scratch, cflags=cflags)
                 cases = make_cases(seed + 1000 * ci, n, nv, "c03-%s-%s" % ("".join(cflags), "tu1" if single_tu else "sep"),
